@@ -10,12 +10,14 @@ What the Python does (snowfakery/data_generator_runtime.py, object_rows.py, data
   DROPS every field whose value is an `ObjectRow` (D03).
 * `yaml.dump` (default `sort_keys=True`) writes every mapping with its keys sorted and raises
   `RepresenterError` at the first value (in that traversal order) whose class has no representer on
-  `SnowfakeryDumper` — `Decimal`, `NicknameSlot`, … (D04).
+  `SnowfakeryDumper` — `NicknameSlot`, … (D04).  `Decimal` has one since cf894eb (own tag, read back by
+  a constructor registered on `SafeLoader`): it is a scalar of the YAML layer.
 * `yaml.safe_load` re-reads scalars; `Globals.__setstate__` reads the keys back (`state[k]` — KeyError
   when missing — or `state.get(k, default)`), re-derives `start_ids`, adds the dependencies to a fresh
   `OrderedSet` and resets the transients.
 * `Interpreter.resave_objects_from_continuation` puts the loaded rows back into the row history; it
-  skips a row reachable by table name when its *id* (whatever its table) is the id of a nicknamed row.
+  skips a row reachable by table name when a nicknamed row has the same (table, id) (5da9efa; before
+  that: the same bare id), then calls `row_history.reset_locals()` (9826fcb).
 
 The YAML scalar layer is a parameter `Y` (dump / load of one scalar); its contract `Lawful Y` is an
 explicit hypothesis of the theorems, never an axiom.  No Mathlib.
@@ -24,7 +26,7 @@ explicit hypothesis of the theorems, never an axiom.  No Mathlib.
 namespace SnowModel.Persist
 
 /-- scalars that the YAML layer represents: str (incl. YAML-hostile), int of any size, float (opaque
-    `repr` token), bool, null, date and datetime (opaque ISO tokens) -/
+    `repr` token), bool, null, date and datetime (opaque ISO tokens), decimal (opaque `str` token) -/
 inductive Sc where
   | str (s : String)
   | int (i : Int)
@@ -33,12 +35,12 @@ inductive Sc where
   | null
   | date (iso : String)
   | datetime (iso : String)
+  | decimal (s : String)   -- `decimal.Decimal`: written as `!snowfakery_decimal '<str(v)>'` (cf894eb)
   deriving DecidableEq, Repr, Inhabited
 
 /-- what a field of a row can hold in memory -/
 inductive Val where
   | sc (v : Sc)
-  | decimal (s : String)             -- `decimal.Decimal` (a `Number`, so an accepted field value)
   | row (table : String) (id : Int)  -- an `ObjectRow` (reference to / nested row)
   | slot (table : String)            -- a `NicknameSlot` (stored forward reference)
   | other (cls : String)             -- any other accepted class without a representer
@@ -169,7 +171,6 @@ def Lawful {τ : Type} (Y : Yaml τ) : Prop := ∀ v, Y.load (Y.dump v) = v
 /-- which classes `SnowfakeryDumper` can represent (scalars), and the error otherwise -/
 def represent {τ : Type} (Y : Yaml τ) : Val → Except Err τ
   | .sc v => .ok (Y.dump v)
-  | .decimal _ => .error (.cannotRepresent "Decimal")
   | .row _ _ => .error (.cannotRepresent "ObjectRow")
   | .slot _ => .error (.cannotRepresent "NicknameSlot")
   | .other c => .error (.cannotRepresent c)
@@ -369,7 +370,7 @@ def Val.storable : Val → Bool
   | _ => false
 
 def Row.storable (r : Row) : Bool := r.values.all (fun kv => kv.2.storable)
-/-- no persistent row holds a Decimal, a slot or another unrepresentable object -/
+/-- no persistent row holds a slot or another unrepresentable object -/
 def Storable (g : G) : Prop :=
   (∀ kr ∈ g.pNick, kr.2.storable = true) ∧ (∀ kr ∈ g.pTable, kr.2.storable = true)
 
@@ -385,8 +386,10 @@ def Row.id? (r : Row) : Option Val := lookupD "id" r.values
     `keep` = tables with history (`tables_to_keep_history_for`) -/
 def resaved (g : G) (keep : List String) : List (String × Option String × Row) :=
   let byNick := g.pNick.map (fun kr => (kr.2.table, some kr.1, kr.2))
-  let already := g.pNick.map (fun kr => kr.2.id?)          -- set(obj._id …): ids only, no table
-  let byTable := (g.pTable.filter (fun kr => !(already.contains kr.2.id?))).map
+  -- set((obj._tablename, obj._id) …)
+  let already := g.pNick.map (fun kr => (kr.2.table, kr.2.id?))
+  -- `if (tablename, obj._id) not in already_saved` (tablename = the dict key)
+  let byTable := (g.pTable.filter (fun kr => !(already.contains (kr.1, kr.2.id?)))).map
     (fun kr => (kr.1, (none : Option String), kr.2))
   (byNick ++ byTable).filter (fun e => keep.contains e.1)
 
